@@ -31,6 +31,14 @@ def make_flow_scenarios(ctx, count):
         s.add("NOW %d" % rng.choice([1, 500, 999, 1000, 77777]))
         ops = []
         m = 0
+        # half of the histories run beside a second interface of the same process with its own engine and traffic,
+        # ticked first in every pass of the daemon's loop; its inputs are not judged
+        shadow = i % 2 == 1
+        if shadow:
+            cfg1 = G.rand_cfg(rng, mtu=1500)
+            net1 = G.Net(rng, cfg1["mac"])
+            s.iface(1, **H.iface_kw(cfg1))
+            s.frame(1, G.f_discover(rng, net1, m=0, tos=0, nstations=1), op="W")
         for _ in range(rng.randint(40, 120)):
             r = rng.random()
             if r < 0.30:
@@ -40,6 +48,11 @@ def make_flow_scenarios(ctx, count):
                 s.add("ADV %d" % ms)
                 ops.append(("ADV", ms))
             elif r < 0.50:
+                if shadow and rng.random() < 0.8:
+                    if rng.random() < 0.25:
+                        s.frame(1, rng.choice([G.f_discover(rng, net1, m=0, tos=0, nstations=1), G.f_query(rng, net1, 0),
+                                               G.f_hello(rng, net1)]), op="W")
+                    s.add("K 1")
                 s.add("K 0")
                 ops.append(("K",))
             else:
@@ -62,7 +75,7 @@ def make_flow_scenarios(ctx, count):
                     fr = G.f_misc(rng, net, tos=0)
                 s.frame(0, fr, op="W")
                 ops.append(("W", fr[17]))
-        s.meta = dict(ops=ops, kind="flow")
+        s.meta = dict(ops=ops, kind="flow", shadow=shadow)
         scns.append(s)
     return scns
 
@@ -121,6 +134,8 @@ def monitor(scn, sobj, rep, sf, ck):
         if ln.startswith("NOW "):
             now = int(ln[4:])
     it = iter(scn.inputs)
+    if sobj.meta.get("shadow"):
+        rep.count("ticks_beside_a_second_interface", sum(1 for i in scn.inputs if i.iface == 1 and i.op == "K"))
     state, last_ts = Q, None
     tmo = None
     last_frame_ms = None
@@ -135,6 +150,9 @@ def monitor(scn, sobj, rep, sf, ck):
             now += op[1]
             continue
         inp = next(it, None)
+        while inp is not None and inp.iface != 0 and inp.out is not None:
+            now += inp.out[3]        # the other interface's handler slept: the clock is shared
+            inp = next(it, None)
         if inp is None or inp.out is None:
             break
         t_start = now
@@ -217,3 +235,4 @@ def run(ctx):
     c = rep.counters
     for name in ("tick-after-31s-active", "tick-before-29s-active", "move:0>1", "move:1>2", "move:1>0", "move:2>0", "state-timeout:1", "state-timeout:2"):
         rep.need(name, c.get("reach:" + name, 0), 20)
+    rep.need("ticks_beside_a_second_interface", c.get("ticks_beside_a_second_interface", 0), 1000)
